@@ -57,6 +57,7 @@ def cases(tier, seed):
         yield {
             "kind": "mesh", "mesh": d, "extra_width": int(rng.choice([0, 0, 1, 3])),
             "order": int(rng.integers(0, len(ORDERS))), "layout": ux.LAYOUTS[int(rng.integers(0, 4))] if rng.random() < 0.5 else "C",
+            "orphans": int(rng.choice([0, 0, 0, 1, 3])), "supplied_edge_nodes": bool(rng.random() < 0.25), "xseed": int(rng.integers(0, 10**6)),
         }
     # histories over two grids: the attributes of A and B are first read in an interleaved order
     npair = 60 if tier == "quick" else 8000
@@ -165,12 +166,24 @@ def run_case(ctx, case):
     if case["kind"] == "pair":
         return run_pair(ctx, case)
     m = gen.build(case["mesh"])
+    if case.get("orphans"):
+        m = gen.with_orphans(m, case["xseed"], case["orphans"])  # nodes no face uses, anywhere in the numbering
+        ctx.observe("meshes_with_unused_nodes")
     width = max(len(f) for f in m.faces) + case["extra_width"]
     layout = case.get("layout", "C")
-    g = ux.grid_from_mesh(m, width=width, layout=layout)
+    extra = None
+    if case.get("supplied_edge_nodes"):
+        # the source ships its own edge table (any row order, either orientation of a pair); face_edge is then looked up in it
+        xr_ = np.random.default_rng(case["xseed"])
+        edges = sorted(ref.edge_set(m.faces), key=lambda e: sorted(e))
+        edges = [edges[i] for i in xr_.permutation(len(edges))]
+        extra = {"edge_node_connectivity": np.array([sorted(e) if xr_.random() < 0.5 else sorted(e)[::-1] for e in edges], dtype=np.intp)}
+        ctx.observe("meshes_with_supplied_edge_nodes")
+    g = ux.grid_from_mesh(m, width=width, layout=layout, extra=extra)
     mixed = len({len(f) for f in m.faces}) > 1
     check_grid(ctx, g, m.faces, m.n_node, width, m.closed, case["order"],
-               {"kind": "mesh", "family": case["mesh"]["family"], "mixed": mixed, "closed": bool(m.closed), "extra_width": case["extra_width"] > 0, "layout": layout})
+               {"kind": "mesh", "family": case["mesh"]["family"], "mixed": mixed, "closed": bool(m.closed), "extra_width": case["extra_width"] > 0, "layout": layout,
+                "unused_nodes": bool(case.get("orphans")), "supplied_edge_nodes": bool(extra)})
     ctx.observe("layout_" + layout)
     # grids DERIVED from this one once all its tables exist: non-contiguous face selections (two selected faces may both
     # touch an unselected one) - judged against the faces the derived grid itself reports
